@@ -65,10 +65,21 @@ def seeded():
     return "\n".join(rows)
 
 
+def seededcount():
+    metas = [json.load(open(f)) for f in sorted(glob.glob(os.path.join(V, "seeded", "*", "meta.json")))]
+    n = len(metas)
+    strengthened = sum(1 for m in metas if m.get("strengthened_by"))
+    undetected = sum(1 for m in metas if not m.get("strengthened_by") and str(m.get("first_result", "")).startswith("NOT DETECTED"))
+    asbuilt = n - strengthened - undetected
+    return (f"Of the {n} confirmed changes, {asbuilt} were reported by the checks as they stood when the change arrived, "
+            f"{strengthened} were missed (or, for a few, would have been missed shortly before) and led to an extension, "
+            f"and {undetected} are deliberately not reported (§9).")
+
+
 def main():
     p = os.path.join(V, "DESIGN.md")
     s = open(p).read()
-    for name, fn in (("measured", measured), ("catalogue", catalogue), ("seeded", seeded)):
+    for name, fn in (("measured", measured), ("catalogue", catalogue), ("seeded", seeded), ("seededcount", seededcount)):
         s = re.sub(rf"<!-- BEGIN {name} -->.*?<!-- END {name} -->", lambda m: f"<!-- BEGIN {name} -->\n{fn()}\n<!-- END {name} -->", s, flags=re.S)
     open(p, "w").write(s)
 
